@@ -109,6 +109,28 @@ def gen_hist(rng, idx):
         arrays.append(name)
     new_array()
     new_array()
+    if rng.random() < 0.25:
+        # an out= target that is a NumPy view taken from an array BEFORE that array is locked as the input of another live graph;
+        # the out= graph then finishes first (backward / clear / del): the owner must stay read-only for the other graph
+        owner = arrays[0]
+        vname = "a%d" % n_a
+        n_a += 1
+        ev.append(["npview", owner, vname, "head"])
+        arrays.append(vname)
+        ev.append(["op", "a", owner, "a", owner, rng.choice(["add", "multiply"])])
+        tensors.append("t%d" % (len(ev) - 1))
+        ev.append(["tensor"])
+        src = "t%d" % (len(ev) - 1)
+        tensors.append(src)
+        ev.append(["view", src, "head"])
+        small = "t%d" % (len(ev) - 1)
+        tensors.append(small)
+        ev.append(["out", small, vname])
+        res = "t%d" % (len(ev) - 1)
+        tensors.append(res)
+        ev.append([rng.choice(["backward", "clear", "del"]), res])
+        if ev[-1][0] == "del":
+            tensors.remove(res)
     for step in range(rng.randint(4, 16)):
         k = rng.random()
         tn = "t%d" % len(ev)
@@ -195,8 +217,23 @@ def run(rep, work, tier, seed, props, replay=None):
         rep.violation({"kind": "lock_management functions differ from Model/LockMgr.v (flags, counters, tracked status, waiting sets or table sizes after some event)",
                        "broken": "correspondence C08: LockCorr.kcase_ok", "case": prim[i], "impl": pres[i], "n_disagreements": len(bad)},
                       no_input=not oracle_bad)
+    # every operation of the catalogue on tensors over caller arrays (copy=False): after backward() -- or after just dropping the results -- and
+    # dropping every reference, each caller array is writeable again and no live array keeps a positive lock count
+    rel_tasks, rel_res, rel_bad = [], [], 0
+    if replay is None or "catalog_index" in (replay or {}):
+        rel_tasks, rel_res = gh.catalogue_sweep("release", ([0, 1, 2] if tier == "thorough" else [1, 2]) if replay is None else [replay.get("kind", 1)], seed, "kind", replay)
+        shown = set()
+        for t, r in zip(rel_tasks, rel_res):
+            for m in r.get("msgs", []):
+                if "still alive" in m:
+                    continue
+                rel_bad += 1
+                key = r["label"].split("(")[0].split(" ")[0]
+                if key not in shown and len(shown) < 6:
+                    shown.add(key)
+                    rep.violation({"kind": "operation sweep: %s -- %s" % (r["label"], m), "catalog_index": t["index"], "kind_": t["kind"], "seed": t["seed"]})
     if not props["ok"]:
-        rep.violation({"kind": "proof obligations of Props/C08.v no longer check", "broken": "Props/C08.v", "log": props["log"][-1500:]}, no_input=not (oracle_bad or bad))
+        rep.violation({"kind": "proof obligations of Props/C08.v no longer check", "broken": "Props/C08.v", "log": props["log"][-1500:]}, no_input=not (oracle_bad or bad or rel_bad))
     evh, exh = {}, {}
     for c in prim + hist:
         for e in c["events"]:
@@ -211,7 +248,8 @@ def run(rep, work, tier, seed, props, replay=None):
         return sum(1 for e in c["events"] if e[0] in ("op", "view", "out")) >= 2 and any(e[0] in ("npview", "astensor") for e in c["events"])
     nt = set(json.dumps(c, sort_keys=True) for c in prim + hist if nontrivial(c))
     rep.coverage.update({
-        "evaluations": len(prim) + len(hist),
+        "evaluations": len(prim) + len(hist) + len(rel_res),
+        "operation_release_sweep": {"entries_x_kinds": len(rel_res), "lock_messages": rel_bad},
         "distinct_nontrivial": len(nt),
         "rule": "primitive event sequences (3-18 events over new/view/lock/release/op/opdie/die, forced locks, outputs that are fresh arrays or views) and real tensor histories (user arrays incl. read-only ones, NumPy views, "
                 "astensor/tensor, ops on tensors and raw arrays, tensor views, in-place updates, out= targets, failing ops, backward/clear_graph/del in random order, guard-off ops); non-trivial = >= 2 overlapping ops with a "
